@@ -199,6 +199,7 @@ func VerifMapStream(L int, par int, buf int, fault int) {
 		var c context.Context = ctx
 		if call == badCall {
 			c = vExpired{ctx}
+			vWindow() // native replay: let a result arrive first, so that the expired call meets it
 		}
 		v, err := out.Next(c)
 		if err == nil {
@@ -234,7 +235,7 @@ func VerifMapStream(L int, par int, buf int, fault int) {
 	out.Close()
 	atReturn := 0
 	vAtomic(func() { atReturn = src.closes })
-	vAssert(atReturn == 1, "C09:mapstream/source-closed-by-the-time-close-returns")
+	vAssert(atReturn == 1, "C09+C14:mapstream/source-closed-by-the-time-close-returns")
 	vAssert(!src.over, "C14:mapstream/read-ahead-bounded-by-buffer-plus-parallelism-plus-one")
 	vQuiesce()
 	vAssert(vBlockedCount() == 0, "C14:mapstream/close-returns-after-workers-stopped")
